@@ -28,6 +28,13 @@ pub struct Case {
 	/// the CA's tls-alpn-01 validator offers TLS 1.2 at most
 	#[serde(default)]
 	pub ca_tls_max12: bool,
+	/// with the git group, after the first issuance: "" | reset (the .git directories are removed: files exist, repositories do not) |
+	/// lock (a stale .git/index.lock makes git add/commit fail during the next issuance)
+	#[serde(default)]
+	pub git_disturb: String,
+	/// a 60-character label in front (identifier longer than 64 octets); not with the unix-socket group (socket paths are limited to 107 octets)
+	#[serde(default)]
+	pub long_label: bool,
 }
 
 pub fn strategy() -> impl Strategy<Value = Case> {
@@ -42,14 +49,16 @@ pub fn strategy() -> impl Strategy<Value = Case> {
 		any::<bool>(),
 		any::<bool>(),
 		prop_oneof![4 => Just(false), 1 => Just(true)],
-		any::<bool>(),
+		(any::<bool>(), prop_oneof![2 => Just(""), 1 => Just("reset"), 1 => Just("lock")], prop_oneof![3 => Just(false), 1 => Just(true)]),
 	)
-		.prop_map(|(group, with_git, labels, n_ids, issuances, host, pid_root_set, sock_root_set, env_at_global, umask077, ca_tls_max12)| Case {
+		.prop_map(|(group, with_git, labels, n_ids, issuances, host, pid_root_set, sock_root_set, env_at_global, umask077, (ca_tls_max12, git_disturb, long_label))| Case {
+			git_disturb: if with_git { git_disturb.to_string() } else { String::new() },
+			long_label: long_label && group != "tls-alpn-01-tacd-unix",
+			issuances: if with_git && !git_disturb.is_empty() { issuances.max(2) } else { issuances },
 			group: group.to_string(),
 			with_git,
 			labels,
 			n_ids,
-			issuances,
 			host: host.to_string(),
 			pid_root_set,
 			sock_root_set,
@@ -116,6 +125,9 @@ fn exec_in(case: &Case, acmed: &std::path::Path, tacd: &std::path::Path, dir: &s
 		(0..case.n_ids).map(|i| {
 			// 1..3 labels, the last one unique to this case and identifier
 			let mut l: Vec<String> = case.labels.iter().take(2).cloned().collect();
+			if case.long_label {
+				l.insert(0, format!("l{}", "o".repeat(58) + "ng"));
+			}
 			l.push(format!("{tag}x{i}"));
 			l.join(".")
 		}).collect()
@@ -254,7 +266,8 @@ fn exec_in(case: &Case, acmed: &std::path::Path, tacd: &std::path::Path, dir: &s
 			result = Some(Outcome::fail(format!("C20:leftover:{}", case.group), format!("after issuance {k} the clean hooks left behind: {left:?}; {d}")));
 			break;
 		}
-		if case.with_git {
+		let locked_now = case.git_disturb == "lock" && k == 1;
+		if case.with_git && !locked_now {
 			for (repo, files) in [(lay.certs.clone(), vec!["c1_ecdsa-p256.crt.pem", "c1_ecdsa-p256.pk.pem"]), (lay.accounts.clone(), vec![])] {
 				let mut files: Vec<String> = files.into_iter().map(|s| s.to_string()).collect();
 				if files.is_empty() {
@@ -276,11 +289,31 @@ fn exec_in(case: &Case, acmed: &std::path::Path, tacd: &std::path::Path, dir: &s
 				break;
 			}
 			let n_commits = Command::new("git").arg("-C").arg(&lay.certs).args(["rev-list", "--count", "HEAD"]).output().ok().map(|o| String::from_utf8_lossy(&o.stdout).trim().parse::<usize>().unwrap_or(0)).unwrap_or(0);
-			// one commit per write: key and certificate at every issuance
-			if n_commits != 2 * (k + 1) {
-				result = Some(Outcome::fail("C20:git-commit-count", format!("{n_commits} commits in the certificate directory after {} issuances (2 writes each); {d}", k + 1)));
+			// one commit per write: key and certificate at every issuance (counted from the last reset; none while the index is locked)
+			let want_commits = match case.git_disturb.as_str() {
+				"reset" if k >= 1 => 2 * k,
+				"lock" if k >= 1 => 2 * k,
+				_ => 2 * (k + 1),
+			};
+			if n_commits != want_commits {
+				result = Some(Outcome::fail("C20:git-commit-count", format!("{n_commits} commits in the certificate directory after {} issuances (2 writes each, expected {want_commits}; disturbance {:?}); {d}", k + 1, case.git_disturb)));
 				break;
 			}
+		}
+		if case.with_git && k == 0 {
+			match case.git_disturb.as_str() {
+				"reset" => {
+					// (the certificate directory's repository only: the account file is not written again by a renewal)
+					let _ = std::fs::remove_dir_all(lay.certs.join(".git"));
+				}
+				"lock" => {
+					let _ = std::fs::write(lay.certs.join(".git/index.lock"), b"");
+				}
+				_ => {}
+			}
+		}
+		if locked_now {
+			let _ = std::fs::remove_file(lay.certs.join(".git/index.lock"));
 		}
 		coll.release_one();
 	}
@@ -291,7 +324,7 @@ fn exec_in(case: &Case, acmed: &std::path::Path, tacd: &std::path::Path, dir: &s
 		return r;
 	}
 	let _ = tail;
-	let mut classes = vec![format!("group={}", case.group), format!("git={}", case.with_git), format!("issuances={}", case.issuances), format!("ids={}", ids.len())];
+	let mut classes = vec![format!("group={}", case.group), format!("git={}{}", case.with_git, if case.git_disturb.is_empty() { String::new() } else { format!("+{}", case.git_disturb) }), format!("long-identifier={}", case.long_label), format!("issuances={}", case.issuances), format!("ids={}", ids.len())];
 	if tcp {
 		classes.push(format!("host={}", case.host));
 	}
@@ -308,7 +341,7 @@ fn exec_in(case: &Case, acmed: &std::path::Path, tacd: &std::path::Path, dir: &s
 }
 
 pub fn run(ctx: &Ctx, rep: &mut Report) {
-	rep.rule = "case = the shipped acmed/config/default_hooks.toml included as is; one of the groups http-01-echo, tls-alpn-01-tacd-tcp, tls-alpn-01-tacd-unix alone or combined with git (certificate and account); HTTP_ROOT / TACD_PORT set to scratch values, TACD_HOST unset (default: the identifier, then `localhost`) / 127.0.0.1 / [::1], TACD_PID_ROOT and TACD_SOCK_ROOT set or defaulted to /run, variables given at certificate or global level, umask 022 or 077; 1..3 DNS identifiers of 1..3 labels; 1..3 consecutive issuances in one daemon run; PATH holds the release tacd. The mock CA validates for real with 5 s patience: reads <HTTP_ROOT>/<identifier>/.well-known/acme-challenge/<token> (world-readable, body = key authorization) or performs an acme-tls/1 handshake with the documented address or socket and applies RFC 8737. Oracle: every issuance succeeds; after each one no proof file, responder process, pid file or socket is left; with git every stored file equals its HEAD blob and the certificate directory has one commit per write. Non-trivial = >= 2 issuances or git.".into();
+	rep.rule = "case = the shipped acmed/config/default_hooks.toml included as is; one of the groups http-01-echo, tls-alpn-01-tacd-tcp, tls-alpn-01-tacd-unix alone or combined with git (certificate and account); HTTP_ROOT / TACD_PORT set to scratch values, TACD_HOST unset (default: the identifier, then `localhost`) / 127.0.0.1 / [::1], TACD_PID_ROOT and TACD_SOCK_ROOT set or defaulted to /run, variables given at certificate or global level, umask 022 or 077; 1..3 DNS identifiers of 1..3 labels; 1..3 consecutive issuances in one daemon run; PATH holds the release tacd. The mock CA validates for real with 5 s patience: reads <HTTP_ROOT>/<identifier>/.well-known/acme-challenge/<token> (world-readable, body = key authorization) or performs an acme-tls/1 handshake with the documented address or socket and applies RFC 8737. With the git group, after the first issuance the certificate directory's .git may be removed (files exist, the repository does not) or a stale .git/index.lock left (git fails during the next issuance, which must still succeed and install a consistent pair); one case in four (not with the unix-socket group) uses identifiers longer than 64 octets. Oracle: every issuance succeeds; after each one no proof file, responder process, pid file or socket is left; with git every stored file equals its HEAD blob and the certificate directory has one commit per write. Non-trivial = >= 2 issuances or git.".into();
 	rep.assume("the /var/www default of HTTP_ROOT is not exercised (rendering is covered by the hook definitions; the sandbox has no such tree); TACD_PORT is always set (the default 5001 would collide between parallel cases)");
 	run_replays::<Case>(ctx, rep, "bb", &exec);
 	if ctx.replay.is_some() {
